@@ -254,6 +254,9 @@ pub trait Deq<T>: Any {
     fn eq_dyn(&self, other: &dyn Deq<T>) -> bool;
     fn eq_slice(&self, other: &[T]) -> bool;
     fn partial_cmp_dyn(&self, other: &dyn Deq<T>) -> Option<Ordering>;
+    /// `==` / `partial_cmp` against a buffer of ANY capacity in 0..=8
+    fn eq_any(&self, other: &dyn Deq<T>) -> bool;
+    fn partial_cmp_any(&self, other: &dyn Deq<T>) -> Option<Ordering>;
     fn cmp_dyn(&self, other: &dyn Deq<T>) -> Ordering;
     fn hash_u64(&self) -> u64;
     fn debug_string(&self, alt: bool) -> String;
@@ -433,6 +436,28 @@ where
     fn partial_cmp_dyn(&self, other: &dyn Deq<T>) -> Option<Ordering> {
         let o = other.as_any().downcast_ref::<Self>().expect("cmp: same capacity");
         self.partial_cmp(o)
+    }
+    fn eq_any(&self, other: &dyn Deq<T>) -> bool {
+        macro_rules! arm {
+            ($($m:literal)*) => {
+                match other.cap() {
+                    $($m => self == other.as_any().downcast_ref::<CircularBuffer<$m, T>>().expect("capacity"),)*
+                    m => panic!("eq_any: capacity {m} not in table"),
+                }
+            };
+        }
+        arm!(0 1 2 3 4 5 6 7 8)
+    }
+    fn partial_cmp_any(&self, other: &dyn Deq<T>) -> Option<Ordering> {
+        macro_rules! arm {
+            ($($m:literal)*) => {
+                match other.cap() {
+                    $($m => self.partial_cmp(other.as_any().downcast_ref::<CircularBuffer<$m, T>>().expect("capacity")),)*
+                    m => panic!("partial_cmp_any: capacity {m} not in table"),
+                }
+            };
+        }
+        arm!(0 1 2 3 4 5 6 7 8)
     }
     fn cmp_dyn(&self, other: &dyn Deq<T>) -> Ordering {
         let o = other.as_any().downcast_ref::<Self>().expect("cmp: same capacity");
